@@ -5,6 +5,7 @@ subsequent `execute` returns the direct rows (Lemmas/Exec.lean).
 -/
 import DafRel.Spec.Processor
 import DafRel.Lemmas.Exec
+import DafRel.Lemmas.ExecP
 import DafRel.Lemmas.Metadata
 
 namespace DafRel
@@ -20,18 +21,27 @@ theorem PlainIter.engine {e : Engine} : (t : Rel) → t.PlainIter e → t.engine
 /-- What processing a plain iteration-engine tree achieves. -/
 structure ProcIterOK (σ : Leaves) (reg : Nat → Option (List Row)) (t : Rel) (s s' : ProcState) : Prop where
   store : StoreOK σ reg s'.st
-  sq : s'.sq.payloads = []
+  sq : s'.sq = s.sq
   cached : t.procFlag = true → (s'.payloadOf t).isSome = true
   temp : s'.nextTemp = s.nextTemp
+  mono : PayMono s.st s'.st
 
-theorem payloadOf_sq_nil (s : ProcState) (h : s.sq.payloads = []) (r : Rel) :
+theorem payloadOf_free (s : ProcState) (r : Rel) (h : s.sq.payload r.oid = none) :
     s.payloadOf r = match r with
       | .leaf oid _ _ _ _ _ p _ => if !p then none else some (.iter (.leafRef oid))
       | .unary .. => none
       | .binary .. => none
       | r => (s.st.payload r.oid).map AnyPayload.iter := by
-  have hq : ∀ o, s.sq.payload o = none := by intro o; simp [SqlState.payload, h]
-  cases r <;> simp [ProcState.payloadOf, hq] <;> (try (cases s.st.payload _ <;> rfl))
+  cases r <;> simp only [Rel.oid] at h <;> simp [ProcState.payloadOf, h, Rel.oid] <;>
+    (try (cases s.st.payload _ <;> rfl))
+
+theorem sqFree_oid (sq : SqlState) : (r : Rel) → r.sqFree sq → r.procFlag = true → sq.payload r.oid = none
+  | .leaf .., h, _ => h
+  | .mat .., h, _ => h.1
+  | .transfer .., h, _ => h.1
+  | .select .., h, _ => h.1
+  | .unary .., _, hf => by simp [Rel.procFlag] at hf
+  | .binary .., _, hf => by simp [Rel.procFlag] at hf
 
 /-- The `materialize` hook of the harness's Processor on a single-engine iteration tree: it returns the rows of the
 direct evaluation as a row sequence, logs one hook call, and leaves the payload store right. -/
@@ -39,19 +49,20 @@ theorem hookMaterialize_iter (σ : Leaves) (reg : Nat → Option (List Row)) (t 
     (hk : t.engine.kind = .iter) (hio : t.IterOK) (hwf : t.WF) (htr : t.Truthful σ) (hkd : keyDetermined σ t = true)
     (hreg : t.RegOK σ reg) (hs : StoreOK σ reg s.st) :
     ∃ s', (hookMaterialize σ t name) s = (.ok (.iter (.seq (sem σ t))), s') ∧ StoreOK σ reg s'.st ∧
-      s'.sq = s.sq ∧ s'.nextTemp = s.nextTemp := by
-  obtain ⟨it, st', h1, h2, h3⟩ : ∃ it st', exec σ t.engine t { s.st with log := [] } = .ok (it, st') ∧
-      it.rows σ = .ok (sem σ t) ∧ StoreOK σ reg st' := by
-    have := exec_correct σ reg t t.engine { s.st with log := [] } hio hwf htr hkd hreg (hs.log []) rfl
-    unfold ExecGood at this
-    obtain ⟨it, s', a, b, _, d⟩ := this
-    exact ⟨it, s', a, b, d⟩
+      s'.sq = s.sq ∧ s'.nextTemp = s.nextTemp ∧ PayMono s.st s'.st := by
+  obtain ⟨it, st', h1, h2, h3, h4⟩ : ∃ it st', exec σ t.engine t { s.st with log := [] } = .ok (it, st') ∧
+      it.rows σ = .ok (sem σ t) ∧ StoreOK σ reg st' ∧ PayMono s.st st' := by
+    have := exec_correctM σ reg t t.engine { s.st with log := [] } (IterOKs.of_iterOK _ t hio) hwf htr hkd hreg
+      (hs.log []) rfl
+    unfold ExecGoodM at this
+    obtain ⟨it, s', a, b, _, d, e⟩ := this
+    exact ⟨it, s', a, b, d, fun o ho => e o ho⟩
   unfold hookMaterialize evalSingle wrapRows
   simp [bind, ExceptT.bind, ExceptT.mk, ExceptT.bindCont, StateT.bind, get, getThe, MonadStateOf.get,
     StateT.get, set, StateT.set, modify, modifyGet, MonadStateOf.modifyGet, StateT.modifyGet, MonadState.modifyGet,
     liftM, monadLift, MonadLift.monadLift, ExceptT.lift, pure,
     ExceptT.pure, StateT.pure, Functor.map, StateT.map, hk, h1, h2]
-  exact ⟨_, rfl, h3.of_payloads_eq rfl, rfl, rfl⟩
+  exact ⟨_, rfl, h3.of_payloads_eq rfl, rfl, rfl, fun o ho => h4 o ho⟩
 
 theorem payloadThrough_some (s : ProcState) (p : AnyPayload) : (t : Rel) → s.payloadOf t = some p →
     payloadThrough s t = some p
@@ -64,18 +75,18 @@ theorem payloadThrough_some (s : ProcState) (p : AnyPayload) : (t : Rel) → s.p
 
 /-- The payload a processed leaf or materialization of a plain tree holds stands for its rows. -/
 theorem cached_payload_rows (σ : Leaves) (reg : Nat → Option (List Row)) (s : ProcState) (e : Engine)
-    (hs : StoreOK σ reg s.st) (hq : s.sq.payloads = []) :
-    (t : Rel) → t.PlainIter e → t.RegOK σ reg → t.procFlag = true → (p : AnyPayload) → s.payloadOf t = some p →
+    (hs : StoreOK σ reg s.st) :
+    (t : Rel) → t.sqFree s.sq → t.PlainIter e → t.RegOK σ reg → t.procFlag = true → (p : AnyPayload) → s.payloadOf t = some p →
     ∃ it, p = .iter it ∧ ItOK it ∧ it.rows σ = .ok (sem σ t)
-  | .leaf oid le cols nm mn mx pl ms, _, _, _, p, h => by
-    rw [payloadOf_sq_nil s hq] at h
+  | .leaf oid le cols nm mn mx pl ms, hq, _, _, _, p, h => by
+    rw [payloadOf_free s (Rel.leaf oid le cols nm mn mx pl ms) hq] at h
     cases pl with
     | false => simp at h
     | true =>
       simp only [Bool.not_true, Bool.false_eq_true, if_false, Option.some.injEq] at h
       exact ⟨.leafRef oid, h.symm, trivial, rfl⟩
-  | .mat oid n t, _, hreg, _, p, h => by
-    rw [payloadOf_sq_nil s hq] at h
+  | .mat oid n t, hq, _, hreg, _, p, h => by
+    rw [payloadOf_free s (Rel.mat oid n t) hq.1] at h
     simp only [Rel.oid] at h
     cases hp : s.st.payload oid with
     | none => simp [hp] at h
@@ -85,15 +96,15 @@ theorem cached_payload_rows (σ : Leaves) (reg : Nat → Option (List Row)) (s :
       rw [hreg.1] at hr
       injection hr with hr
       exact ⟨it, h.symm, hi, by rw [hrows, ← hr]; rfl⟩
-  | .unary .., _, _, hf, _, _ => by simp [Rel.procFlag] at hf
-  | .binary .., _, _, hf, _, _ => by simp [Rel.procFlag] at hf
-  | .transfer .., hp, _, _, _, _ => by cases hp
-  | .select .., hp, _, _, _, _ => by cases hp
+  | .unary .., _, _, _, hf, _, _ => by simp [Rel.procFlag] at hf
+  | .binary .., _, _, _, hf, _, _ => by simp [Rel.procFlag] at hf
+  | .transfer .., _, hp, _, _, _, _ => by cases hp
+  | .select .., _, hp, _, _, _, _ => by cases hp
 
 theorem process_plain_iter (σ : Leaves) (reg : Nat → Option (List Row)) (e : Engine) (hek : e.kind = .iter) :
     (t : Rel) → (fuel : Nat) → (matAs : Option String) → (s : ProcState) →
     t.PlainIter e → t.IterOK → t.WF → t.Truthful σ → keyDetermined σ t = true → t.RegOK σ reg →
-    StoreOK σ reg s.st → s.sq.payloads = [] → t.size ≤ fuel →
+    StoreOK σ reg s.st → t.sqFree s.sq → t.size ≤ fuel →
     ∃ s', (processRec σ fuel t matAs).run.run s = (.ok (.same, t.procFlag), s') ∧ ProcIterOK σ reg t s s'
   | .leaf oid le cols nm mn mx pl ms, fuel, matAs, s, hp, hio, hwf, htr, hkd, hreg, hs, hq, hf => by
     cases fuel with
@@ -101,8 +112,8 @@ theorem process_plain_iter (σ : Leaves) (reg : Nat → Option (List Row)) (e : 
     | succ n =>
       have hpl : pl = true := hio
       have hc : (s.payloadOf (Rel.leaf oid le cols nm mn mx pl ms)).isSome = true := by
-        rw [payloadOf_sq_nil s hq]; simp [hpl]
-      refine ⟨s, ?_, hs, hq, fun _ => hc, rfl⟩
+        rw [payloadOf_free s (Rel.leaf oid le cols nm mn mx pl ms) hq]; simp [hpl]
+      refine ⟨s, ?_, hs, rfl, fun _ => hc, rfl, PayMono.refl _⟩
       unfold processRec
       simp [bind, ExceptT.bind, ExceptT.mk, ExceptT.bindCont, StateT.bind, get, getThe, MonadStateOf.get, StateT.get,
         liftM, monadLift, MonadLift.monadLift, ExceptT.lift, ExceptT.run, StateT.run, hc, pure, ExceptT.pure,
@@ -116,7 +127,7 @@ theorem process_plain_iter (σ : Leaves) (reg : Nat → Option (List Row)) (e : 
       obtain ⟨s', ih, P⟩ := process_plain_iter σ reg e hek t n none s hp hio.1 hwf.1 htr hkd' hreg hs hq
         (by simp [Rel.size] at hf; omega)
       simp only [ExceptT.run, StateT.run] at ih
-      refine ⟨s', ?_, P.store, P.sq, fun h => by simp [Rel.procFlag] at h, P.temp⟩
+      refine ⟨s', ?_, P.store, P.sq, fun h => by simp [Rel.procFlag] at h, P.temp, P.mono⟩
       unfold processRec
       simp [bind, ExceptT.bind, ExceptT.mk, ExceptT.bindCont, StateT.bind, get, getThe, MonadStateOf.get, StateT.get,
         liftM, monadLift, MonadLift.monadLift, ExceptT.lift, ExceptT.run, StateT.run, pure, ExceptT.pure, StateT.pure,
@@ -130,12 +141,12 @@ theorem process_plain_iter (σ : Leaves) (reg : Nat → Option (List Row)) (e : 
       simp only [keyDetermined, Bool.and_eq_true] at hkd
       cases op with
       | chain =>
-        obtain ⟨s1, ih1, P1⟩ := process_plain_iter σ reg e hek l n none s hpl hil hwf.1 htr.1 hkd.1 hreg.1 hs hq
+        obtain ⟨s1, ih1, P1⟩ := process_plain_iter σ reg e hek l n none s hpl hil hwf.1 htr.1 hkd.1 hreg.1 hs hq.1
           (by simp [Rel.size] at hf; omega)
         obtain ⟨s2, ih2, P2⟩ := process_plain_iter σ reg e hek r n none s1 hpr hir hwf.2.1 htr.2 hkd.2 hreg.2
-          P1.store P1.sq (by simp [Rel.size] at hf; omega)
+          P1.store (by rw [P1.sq]; exact hq.2) (by simp [Rel.size] at hf; omega)
         simp only [ExceptT.run, StateT.run] at ih1 ih2
-        refine ⟨s2, ?_, P2.store, P2.sq, fun h => by simp [Rel.procFlag] at h, by rw [P2.temp, P1.temp]⟩
+        refine ⟨s2, ?_, P2.store, by rw [P2.sq, P1.sq], fun h => by simp [Rel.procFlag] at h, by rw [P2.temp, P1.temp], P1.mono.trans P2.mono⟩
         unfold processRec
         simp [bind, ExceptT.bind, ExceptT.mk, ExceptT.bindCont, StateT.bind, get, getThe, MonadStateOf.get,
           StateT.get, liftM, monadLift, MonadLift.monadLift, ExceptT.lift, ExceptT.run, StateT.run, pure,
@@ -155,25 +166,26 @@ theorem process_plain_iter (σ : Leaves) (reg : Nat → Option (List Row)) (e : 
       | some it0 =>
         -- already materialized
         have hcached : (s.payloadOf (Rel.mat oid name target)).isSome = true := by
-          rw [payloadOf_sq_nil s hq]; simp [Rel.oid, hc]
-        refine ⟨s, ?_, hs, hq, fun _ => hcached, rfl⟩
+          rw [payloadOf_free s (Rel.mat oid name target) hq.1]; simp [Rel.oid, hc]
+        refine ⟨s, ?_, hs, rfl, fun _ => hcached, rfl, PayMono.refl _⟩
         unfold processRec
         simp [bind, ExceptT.bind, ExceptT.mk, ExceptT.bindCont, StateT.bind, get, getThe, MonadStateOf.get,
           StateT.get, liftM, monadLift, MonadLift.monadLift, ExceptT.lift, ExceptT.run, StateT.run, hcached, pure,
           ExceptT.pure, StateT.pure, Functor.map, StateT.map, Rel.procFlag]
       | none =>
         have hnc : (s.payloadOf (Rel.mat oid name target)).isSome = false := by
-          rw [payloadOf_sq_nil s hq]; simp [Rel.oid, hc]
-        obtain ⟨s1, ih, P1⟩ := process_plain_iter σ reg e hek target n (some name) s hpt hio hwf htr hkd' hreg.2 hs hq
+          rw [payloadOf_free s (Rel.mat oid name target) hq.1]; simp [Rel.oid, hc]
+        obtain ⟨s1, ih, P1⟩ := process_plain_iter σ reg e hek target n (some name) s hpt hio hwf htr hkd' hreg.2 hs hq.2
           (by simp [Rel.size] at hf; omega)
         simp only [ExceptT.run, StateT.run] at ih
-        have hattach : ∀ (s2 : ProcState) (it : Iterable), StoreOK σ reg s2.st → s2.sq.payloads = [] →
-            s2.nextTemp = s.nextTemp → ItOK it → it.rows σ = .ok (sem σ target) →
+        have hattach : ∀ (s2 : ProcState) (it : Iterable), StoreOK σ reg s2.st → s2.sq = s.sq →
+            s2.nextTemp = s.nextTemp → PayMono s.st s2.st → ItOK it → it.rows σ = .ok (sem σ target) →
             ProcIterOK σ reg (Rel.mat oid name target) s (s2.attach oid (.iter it)) := by
-          intro s2 it h2 hq2 ht2 hi hr
-          refine ⟨?_, hq2, fun _ => ?_, ht2⟩
+          intro s2 it h2 hq2 ht2 hm2 hi hr
+          refine ⟨?_, hq2, fun _ => ?_, ht2, ?_⟩
           · exact StoreOK.cons h2 oid it (sem σ target) hi hreg.1 hr
           · simp [ProcState.attach, ProcState.payloadOf, Rel.oid, ExecState.payload]
+          · exact hm2.trans (PayMono.cons s2.st oid it s2.st.evals)
         have hmf : (Rel.mat oid name target).procFlag = true := rfl
         rw [hmf]
         have hek' : target.engine.kind = .iter := by rw [PlainIter.engine target hpt]; exact hek
@@ -183,9 +195,9 @@ theorem process_plain_iter (σ : Leaves) (reg : Nat → Option (List Row)) (e : 
           cases hpo : s1.payloadOf target with
           | none => simp [hpo] at hsome
           | some p =>
-            obtain ⟨it, hpit, hi, hr⟩ := cached_payload_rows σ reg s1 e P1.store P1.sq target hpt hreg.2 hfl p hpo
+            obtain ⟨it, hpit, hi, hr⟩ := cached_payload_rows σ reg s1 e P1.store target (by rw [P1.sq]; exact hq.2) hpt hreg.2 hfl p hpo
             subst hpit
-            refine ⟨s1.attach oid (.iter it), ?_, hattach s1 it P1.store P1.sq P1.temp hi hr⟩
+            refine ⟨s1.attach oid (.iter it), ?_, hattach s1 it P1.store P1.sq P1.temp P1.mono hi hr⟩
             unfold processRec
             simp [hfl, hnc, ih, Res.get, bind, ExceptT.bind, ExceptT.mk, ExceptT.bindCont, StateT.bind, get, getThe,
               MonadStateOf.get, StateT.get, modify, modifyGet, MonadStateOf.modifyGet, StateT.modifyGet,
@@ -198,7 +210,7 @@ theorem process_plain_iter (σ : Leaves) (reg : Nat → Option (List Row)) (e : 
               joinIdentity_sound σ target hwf htr
                 (by simpa [Rel.isJoinIdentity, Rel.columns, Rel.maxRows, Rel.minRows] using hji)
             refine ⟨s1.attach oid (.iter (.mapping [] [Row.empty])), ?_,
-              hattach s1 _ P1.store P1.sq P1.temp (by simp [ItOK]) (by rw [hsem]; rfl)⟩
+              hattach s1 _ P1.store P1.sq P1.temp P1.mono (by simp [ItOK]) (by rw [hsem]; rfl)⟩
             unfold processRec
             simp [hfl, hnc, ih, hji, hek', trivialPayload, Res.get, bind, ExceptT.bind, ExceptT.mk, ExceptT.bindCont,
               StateT.bind, get, getThe, MonadStateOf.get, StateT.get, modify, modifyGet, MonadStateOf.modifyGet,
@@ -209,7 +221,7 @@ theorem process_plain_iter (σ : Leaves) (reg : Nat → Option (List Row)) (e : 
               have hsem : sem σ target = [] :=
                 maxRows_zero_sound σ target hwf htr (by simpa [Rel.maxRows] using hmz)
               refine ⟨s1.attach oid (.iter (.mapping [] [])), ?_,
-                hattach s1 _ P1.store P1.sq P1.temp (by simp [ItOK]) (by rw [hsem]; rfl)⟩
+                hattach s1 _ P1.store P1.sq P1.temp P1.mono (by simp [ItOK]) (by rw [hsem]; rfl)⟩
               unfold processRec
               simp [hfl, hnc, ih, hji, hmz, hek', trivialPayload, Res.get, bind, ExceptT.bind, ExceptT.mk,
                 ExceptT.bindCont, StateT.bind, get, getThe, MonadStateOf.get, StateT.get, modify, modifyGet,
@@ -217,15 +229,23 @@ theorem process_plain_iter (σ : Leaves) (reg : Nat → Option (List Row)) (e : 
                 MonadLift.monadLift, ExceptT.lift, ExceptT.run, StateT.run, pure, ExceptT.pure, StateT.pure,
                 Functor.map, StateT.map]
             · -- the hook evaluates the target
-              obtain ⟨s2, hh, h2, hsq, hnt⟩ := hookMaterialize_iter σ reg target name s1 hek' hio hwf htr hkd' hreg.2
+              obtain ⟨s2, hh, h2, hsq, hnt, hm2⟩ := hookMaterialize_iter σ reg target name s1 hek' hio hwf htr hkd' hreg.2
                 P1.store
               refine ⟨s2.attach oid (.iter (.seq (sem σ target))), ?_,
-                hattach s2 _ h2 (by rw [hsq]; exact P1.sq) (by rw [hnt, P1.temp]) trivial rfl⟩
+                hattach s2 _ h2 (by rw [hsq, P1.sq]) (by rw [hnt, P1.temp]) (P1.mono.trans hm2) trivial rfl⟩
               unfold processRec
               simp [hfl, hnc, ih, hji, hmz, hh, Res.get, bind, ExceptT.bind, ExceptT.mk, ExceptT.bindCont, StateT.bind,
                 get, getThe, MonadStateOf.get, StateT.get, modify, modifyGet, MonadStateOf.modifyGet,
                 StateT.modifyGet, MonadState.modifyGet, liftM, monadLift, MonadLift.monadLift, ExceptT.lift,
                 ExceptT.run, StateT.run, pure, ExceptT.pure, StateT.pure, Functor.map, StateT.map]
+
+theorem sqFree_empty : (t : Rel) → t.sqFree {}
+  | .leaf .. => rfl
+  | .unary _ t _ => sqFree_empty t
+  | .binary _ l r _ => ⟨sqFree_empty l, sqFree_empty r⟩
+  | .mat _ _ t => ⟨rfl, sqFree_empty t⟩
+  | .transfer _ _ t => ⟨rfl, fun _ => sqFree_empty t⟩
+  | .select _ _ _ _ _ _ _ _ t => ⟨rfl, sqFree_empty t⟩
 
 /-- **Process, then execute**: for a tree inside one iteration engine (leaves, unary operations, chains,
 materializations), `Processor.process` returns the tree itself, and executing it afterwards yields exactly the rows
@@ -236,7 +256,7 @@ theorem process_then_execute (σ : Leaves) (reg : Nat → Option (List Row)) (e 
     ∃ ps, processTop σ st {} t = (.ok .same, ps) ∧
       ∃ it s', exec σ t.engine t ps.st = .ok (it, s') ∧ it.rows σ = .ok (sem σ t) := by
   obtain ⟨s', h, P⟩ := process_plain_iter σ reg e hek t defaultFuel none { st := st, sq := {} } hp hio hwf htr hkd
-    hreg hs rfl hf
+    hreg hs (sqFree_empty t) hf
   refine ⟨s', ?_, ?_⟩
   · unfold processTop
     simp only [ExceptT.run, StateT.run] at h ⊢
